@@ -182,14 +182,17 @@ func (t *irGen) chainStep(reorgDepth int) {
 
 func genImp(g *Gen) {
 	nHist := g.Scale(70, 1000)
-	nLong := g.Scale(3, 50)
+	nLong := g.Scale(5, 50)
 	for h := 0; h < nHist; h++ {
-		long := h < nLong
-		genImpHistory(g, long)
+		genImpHistory(g, h < nLong, h)
 	}
 }
 
-func genImpHistory(g *Gen, long bool) {
+// heights (relative to the batch size 1000) the follower of instance 2 is brought to before a multi-batch
+// import: the first batch then stops one below / exactly at / above the tip
+var impTargets = []int{1001, 1000, 1002, 999, 2001, 2000, 1500}
+
+func genImpHistory(g *Gen, long bool, idx int) {
 	r := g.Rng
 	l := newLedGen(g, "imp")
 	t := &irGen{g: g, l: l}
@@ -226,8 +229,9 @@ func genImpHistory(g *Gen, long bool) {
 	}
 	// ---- history before the import
 	pre := 4 + r.Intn(g.Scale(14, 30))
+	exact := false
 	fillAt := -1
-	if long {
+	if long && idx%2 == 1 {
 		fillAt = r.Intn(pre)
 	}
 	for s := 0; s < pre; s++ {
@@ -237,6 +241,18 @@ func genImpHistory(g *Gen, long bool) {
 			// 1000 = the batch size: lengths around it put the cursor below / at / above later forks
 			t.fillBlocks(990+r.Intn(40), 3)
 			g.Stats["long-chain"]++
+		}
+		if long && s == pre-1 && idx%2 == 0 {
+			// boundary: the tip the first batch sees is exactly target (both followers synced to it)
+			t.drain1()
+			t.drain2()
+			target := impTargets[(idx/2)%len(impTargets)]
+			if d := target - (len(l.chain) - 1); d > 0 {
+				t.fillBlocks(d, 3)
+				exact = true
+				g.Stats[fmt.Sprintf("tip-at-%d", target)]++
+			}
+			break
 		}
 		t.chainStep(g.Scale(4, 8))
 		deliver()
@@ -273,12 +289,20 @@ func genImpHistory(g *Gen, long bool) {
 		g.Stats["import-discovery"]++
 	}
 	l.maxAddr = 0 // no address is issued after the import moment
-	if r.Intn(3) > 0 {
+	if exact || r.Intn(3) > 0 {
 		t.drain2()
 	} else {
 		g.Stats["import-while-lagging"]++
 	}
 	t.op("import", "i2 import %s %s %d", w, mode, n)
+	if exact {
+		// the first batch runs against exactly that tip, and its outcome is observed at once
+		// (stepped silently, so that a wrong hand-over shows as a wrong answer of UseWallet - which has a
+		// specification - and not merely as a different step result)
+		t.op("impstep-at-boundary", "i2 impsteps %s 1", w)
+		t.op("i2-use-importing", "i2 use %s", w)
+		t.op("i2-wallets", "i2 wallets")
+	}
 	t.op("i2-tasks", "i2 tasks")
 	t.op("i2-wallets", "i2 wallets")
 	t.op("i2-use-importing", "i2 use %s", w)
